@@ -1,6 +1,10 @@
 //! mc-store: serves C14 C15 C17 C18 C19 (one module per property).
 use mc_core::Ctx;
 
+mod alphabet;
+mod refmerkle;
+mod treekeys;
+
 mod c14;
 mod c15;
 mod c17;
